@@ -217,6 +217,42 @@ theorem restoreContext_runs_fixNames {e : Ctx} {m m' : M} {dv rest : List Slot}
         cases h3
         exact ⟨fun hin => by rw [← hs1, ← hs2]; exact ha hin, fun hnin => by rw [← hn1, ← hn2]; exact hb hnin⟩
 
+/-- ids of the efun contexts registered by the slots of a stack segment, top first (the fix_object_names slot registers none) -/
+def efunIds (dv : List Slot) : List Nat := (handlerIds dv).filter (· != fixNamesId)
+
+/-- **every registered efun context is unlinked exactly once, innermost first.**  When the file-scope list of efun contexts
+    starts with the contexts registered by the slots of the segment that is unwound (as it does: an efun links its context
+    when it pushes its slot), unwinding the segment leaves exactly the contexts registered below it — whatever else the
+    segment holds (temporaries, the fix_object_names slot). -/
+theorem popN_unlinks_efun_contexts (dv : List Slot) : ∀ (m : M) (rest : List Slot) (below : List Nat),
+    m.vs = dv ++ rest → m.efunCtx = efunIds dv ++ below →
+    ∃ m', popN dv.length m = some m' ∧ m'.efunCtx = below ∧ m'.vs = rest := by
+  induction dv with
+  | nil => intro m rest below h hc; exact ⟨m, rfl, by simpa [efunIds, handlerIds] using hc, by simpa using h⟩
+  | cons s dv ih =>
+    intro m rest below h hc
+    cases s with
+    | val =>
+      have h1 : popStack m = some { m with vs := dv ++ rest } := by unfold popStack; rw [h]; rfl
+      obtain ⟨m', hp, he, hv⟩ := ih { m with vs := dv ++ rest } rest below rfl (by simpa [efunIds, handlerIds] using hc)
+      exact ⟨m', by simp only [List.length_cons, popN, h1]; exact hp, he, hv⟩
+    | handler id =>
+      have h1 : popStack m = some (runSlotHandler id { m with vs := dv ++ rest, ran := id :: m.ran }) := by
+        unfold popStack; rw [h]; rfl
+      by_cases hid : id = fixNamesId
+      · subst hid
+        have hc' : (runSlotHandler fixNamesId { m with vs := dv ++ rest, ran := fixNamesId :: m.ran }).efunCtx = efunIds dv ++ below := by
+          simpa [runSlotHandler, efunIds, handlerIds] using hc
+        obtain ⟨m', hp, he, hv⟩ := ih _ rest below rfl hc'
+        exact ⟨m', by simp only [List.length_cons, popN, h1]; exact hp, he, hv⟩
+      · have hb : (id == fixNamesId) = false := beq_false_of_ne hid
+        have hne : (id != fixNamesId) = true := by simp [bne, hb]
+        have hc' : (runSlotHandler id { m with vs := dv ++ rest, ran := id :: m.ran }).efunCtx = efunIds dv ++ below := by
+          have : m.efunCtx = id :: (efunIds dv ++ below) := by simpa [efunIds, handlerIds, hne] using hc
+          simp [runSlotHandler, hb, this]
+        obtain ⟨m', hp, he, hv⟩ := ih _ rest below rfl hc'
+        exact ⟨m', by simp only [List.length_cons, popN, h1]; exact hp, he, hv⟩
+
 /-- the heart-beat switch-off of error_handler: afterwards no heart beat is current, and the one that was is recorded as off -/
 theorem hbOffStep_spec (m : M) :
     (hbOffStep m).hbCur = 0 ∧ (m.hbCur ≠ 0 → (hbOffStep m).hbOff = m.hbCur :: m.hbOff) ∧ (m.hbCur = 0 → hbOffStep m = m) := by
